@@ -12,9 +12,10 @@ reg(Prop('C11', [
     clauses=['form_size_write_len', 'form_size_write_decodes', 'offsets_exact', 'refs_resolve', 'roundtrip', 'unit_roundtrip',
              'abbrev_codes', 'abbrev_dedup', 'strings_add', 'strings_shared', 'strings_offset',
              'unencodable_is_error', 'encodable_is_ok', 'dangling_ref_is_error', 'dangling_ref_invalid_reference', 'patch_no_panic', 'file_index_roundtrip', 'fixups_all_resolve',
+             'attr_read_by_reader', 'abbrevs_read_by_reader', 'unit_read_by_reader',
              'base_types_first', 'base_types_first_perm', 'size_no_panic', 'write_no_panic', 'calc_no_panic', 'write_tree_no_panic'],
     explored_only=[
-        'the step from the spec-level DIE/form reader (Spec/UnitWrSpec.v decode_die, form_decode) to gimli::read: harness oracle — every case is read back '
+        'model-level composition with the reader models is PROVED (attr_read_by_reader: Attr.parse_attribute; abbrevs_read_by_reader: AbbrevRd.parse_abbrevs; unit_read_by_reader: DieRd raw entry reader via Forest.enc_forest + C02 raw_is_preorder); the step from those reader models to gimli::read itself is C02/C03\'s correspondence plus this harness oracle — every case is read back '
         'with gimli\'s reader and its semantic dump (tags, nesting, attribute meanings, strings/ranges/locations/file names resolved, references as entry identities) '
         'is compared with the dump predicted from the script; written order = base types first; every DW_AT_sibling points behind its subtree',
         'expression bytes, range/location list offsets and the line program offset are opaque parameters of the model (owned by C13/C15/C16); '
